@@ -213,7 +213,12 @@ func validateBatch(c *core.Ctx, devs []string, schema *ast.Schema, sdl string, d
 		events = append(events, 1)
 		obs[id] = o
 		idx[id] = dc
-		if dc.intent != "valid" {
+		if dc.intent == "small-scope" {
+			// the exhaustive small documents: the ones with a fragment, a type condition or an error
+			if len(o.Errs) > 0 || strings.Contains(dc.text, "...") {
+				nontrivial++
+			}
+		} else if dc.intent != "valid" {
 			nontrivial++
 		}
 	}
@@ -253,7 +258,7 @@ func validateBatch(c *core.Ctx, devs []string, schema *ast.Schema, sdl string, d
 }
 
 func checkC08(c *core.Ctx) {
-	c.Rule = "cases are (schema, document) pairs: schemas from the typed generator (interfaces implementing interfaces, unions, oneOf inputs, repeatable directives, defaults, custom scalars, nested list/non-null); documents valid by construction, the same with 1-3 faults injected from a catalogue with at least one operator per rule (single-fault documents are the majority), and type-blind random documents over the schema's vocabulary. The real validator's verdict (no errors / errors) is compared with Rules.tla's verdict evaluated by TLC on the parsed document and the loaded schema (Rules_Trace); generator intent is the third witness. Non-trivial = faulty and type-blind documents; distinct by text"
+	c.Rule = "cases are (schema, document) pairs: schemas from the typed generator (interfaces implementing interfaces, unions, oneOf inputs, repeatable directives, defaults, custom scalars, nested list/non-null); documents valid by construction, the same with 1-3 faults injected from a catalogue with at least one operator per rule (single-fault documents are the majority), and type-blind random documents over the schema's vocabulary. The real validator's verdict (no errors / errors) is compared with Rules.tla's verdict evaluated by TLC on the parsed document and the loaded schema (Rules_Trace); generator intent is the third witness. Non-trivial = faulty, type-blind and hand-written documents, and the small-scope documents that have a fragment, a type condition or an error; distinct by text"
 	c.Assumptions = []string{
 		"Rules.tla is the reading of section 5 of the October-2021 specification for the rules the library implements (plus the oneOf input rule and the introspection depth limit as the library documents them)",
 		"the document given to the specification is the projection of the real parser's output (C05) and the schema the projection of the real loader's output (C07)",
